@@ -225,14 +225,26 @@ CHECKS["C12"] = dict(
          "generated sine table (1e-4).",
     ref="6/C12")
 
+CHECKS["C10"] = dict(
+    technique="TLA+ exact rational statistics on integer data (Defs_Coupling: sign and r^2 of Pearson / lagged cross-correlation, mid-rank Spearman, Gaussian MI via ln table) + TLC-enumerated data sets replayed on CouplingAnalysis and the climate similarity classes + TLC validation (Val_C10)",
+    text="Gen_C10 enumerates integer data sets (every first series over {0,1,2} of the cfg lengths; delayed copy; anti-correlated / duplicated "
+         "/ constant / derived third series; tau_max 0..2).  TLC decides on the recorded estimates: sign and r^2 of every lagged "
+         "cross-correlation in both lag modes (lag inside the arg-max set, ties undecided), max = all at the reported lag, "
+         "symmetrize_by_absmax, bounds, Gaussian mutual information -1/2 ln(1-r^2) through a generated ln table, Pearson (Tsonis) and "
+         "Spearman (mid-ranks) climate similarities, agreement of compiled and pure-Python CouplingAnalysis at lag 0, invariance under "
+         "positive affine maps and consistency under reordering of the series.",
+    note="PARTIAL: kNN and binned mutual information, non-Gaussian information transfer, partial correlation and the surrogate test "
+         "matrices are not decided (digamma / quantile-binning conventions have no integer definition); accuracy decided to 1.5e-3 "
+         "(float32 kernels), not single precision; the climate classes store absolute similarities, so their sign is not compared.",
+    ref="6/C10")
+
 NOT_APPLICABLE = {
     "C20": "memory safety of compiled kernels is a property of concrete addresses, not of abstract state a TLA+ "
            "specification maintains; nothing binds a PlusCal transcription of index arithmetic to the compiled code "
            "(DESIGN section 10)",
 }
 
-NOT_YET = ["C01", "C02", "C03", "C04", "C05", "C06", "C07", "C08", "C09", "C10", "C11", "C12", "C13",
-           "C15", "C16", "C17", "C18", "C19"]
+NOT_YET = []
 
 
 def main():
